@@ -65,7 +65,7 @@ void Reference::copy_from(const Reference& reference) {
     properties = properties_copy(reference.properties);
 }
 
-void Reference::repeat_and_transform(Array<Vec2>& point_array) const {
+void Reference::repeat_and_transform(Array<Vec2>& point_array, bool all_offsets) const {
     const uint64_t num_points = point_array.count;
     if (num_points == 0) return;
 
@@ -73,7 +73,13 @@ void Reference::repeat_and_transform(Array<Vec2>& point_array) const {
     Array<Vec2> offsets = {};
 
     if (repetition.type != RepetitionType::None) {
-        repetition.get_extrema(offsets);
+        // The axis-extreme offsets are enough for a bounding box, but not for a convex hull of an
+        // explicit list of offsets (an offset can be extreme in a diagonal direction only).
+        if (all_offsets && repetition.type == RepetitionType::Explicit) {
+            repetition.get_offsets(offsets);
+        } else {
+            repetition.get_extrema(offsets);
+        }
         point_array.ensure_slots((offsets.count - 1) * num_points);
         point_array.count *= offsets.count;
     } else {
@@ -175,7 +181,7 @@ void Reference::convex_hull(Array<Vec2>& result, Map<GeometryInfo>& cache) const
     }
     Array<Vec2> point_array = {};
     point_array.extend(info.convex_hull);
-    repeat_and_transform(point_array);
+    repeat_and_transform(point_array, true);
     gdstk::convex_hull(point_array, result);
     point_array.clear();
 }
